@@ -7,6 +7,7 @@ import ModbusVerif.Model.Timing
 import ModbusVerif.Model.Role
 import ModbusVerif.Spec.RoleSpec
 import ModbusVerif.Model.Lifecycle
+import ModbusVerif.Model.Heap
 /-
   mbmodel: line protocol. One operation per input line, one canonical output line.
   Unknown or malformed lines print `bad-op` (never a default).
@@ -247,6 +248,14 @@ def step (line : String) : String :=
           ";".intercalate ((Lifecycle.enabledSteps s f).map Lifecycle.Step.show)
       | none => "bad-op"
     | _, _ => "bad-op"
+  | ["heapwb", little, observe, arr, off, len, cap] =>
+    -- WriteBytes/WriteRawBytes on the heap model: the caller's backing array afterwards and the payload sent
+    match unhex arr, off.toNat?, len.toNat?, cap.toNat? with
+    | some a, some o, some l, some c =>
+      match Heap.writeBytesH [a] { arr := 0, off := o, len := l, cap := c } (little = "1") (observe = "1") with
+      | some (h', out) => "arr=" ++ hex (h'.getD 0 []) ++ " out=" ++ hex (Heap.load h' out)
+      | none => "panic"
+    | _, _, _, _ => "bad-op"
   | ["crc", data] =>
     match unhex data with
     | some d => hex (Crc.crc16 d) ++ " ref=" ++ hex (le16 (Crc.refCrc d))
